@@ -53,6 +53,7 @@ structure DState where
   mig : NeoFS.Driver.MigrateState := {}
   resync : NeoFS.Driver.Resync.State := {}
   irn : NeoFS.IRNetmap.St := ⟨0, false, 0⟩
+  irx : NeoFS.IRIndexer.St := {}
 
 def stepLine (s : DState) (line : String) : DState × String :=
   let o := parseOp line
@@ -71,7 +72,7 @@ def stepLine (s : DState) (line : String) : DState × String :=
   | "irc" => (s, ircStep o)
   | "irn" => let (n, out) := irnStep s.irn o; ({ s with irn := n }, out)
   | "fstree" => let (f, out) := fstreeStep s.fstree o; ({ s with fstree := f }, out)
-  | "ir" => (s, irStep o)
+  | "ir" => let (x, out) := irStep s.irx o; ({ s with irx := x }, out)
   | "eng" => let (g, out) := engStep s.eng o; ({ s with eng := g }, out)
   | "modes" => let (m, out) := modesStep s.modes o; ({ s with modes := m }, out)
   | "smerge" => let (e, out) := smergeStep s.smerge o; ({ s with smerge := e }, out)
